@@ -57,7 +57,7 @@ func (f *Frame) pkg() *ssa.Package {
 
 func basicByName(n string) types.Type {
 	for _, t := range types.Typ {
-		if t.Name() == n {
+		if t.Name() == n && t.Kind() != types.UnsafePointer { // (unsafe.Pointer's basic name is "Pointer")
 			return t
 		}
 	}
@@ -263,7 +263,7 @@ func (f *Frame) evalIdent(name string, st, old *State) TV {
 			return tv
 		}
 	}
-	specErr("unknown name %q in contract of %s", name, FuncName(f.fn))
+	specErr("unknown name %q in contract of %s (at block %v)", name, FuncName(f.fn), f.cur)
 	return TV{}
 }
 
@@ -422,6 +422,10 @@ func (f *Frame) indexValue(xv, iv TV, st *State) TV {
 		}
 		return TV{x.fromLeaves(t.Elem(), &ts), t.Elem()}
 	case *types.Map:
+		if _, isIface := t.Key().Underlying().(*types.Interface); isIface {
+			v, _ := x.mapRead(st, t, xv.V.(*smt.Term), x.mapKeyTerm(f.coerce(iv, t.Key()).V, t.Key()))
+			return TV{v, t.Elem()}
+		}
 		k := iv.V.(*smt.Term)
 		ks := mapKeySort(t)
 		if k.S != ks && k.S.K == smt.KBV && ks.K == smt.KBV {
@@ -878,7 +882,7 @@ func (f *Frame) evalCall(e *spec.Call, st, old *State) TV {
 		m := f.eval(e.Args[0], st, old)
 		mt := m.T.Underlying().(*types.Map)
 		k := f.coerce(f.eval(e.Args[1], st, old), mt.Key())
-		_, ok := x.mapRead(st, mt, m.V.(*smt.Term), x.scalar(k.V, mt.Key()))
+		_, ok := x.mapRead(st, mt, m.V.(*smt.Term), x.mapKeyTerm(k.V, mt.Key()))
 		return TV{ok, types.Typ[types.Bool]}
 	case "base":
 		a := f.eval(e.Args[0], st, old)
@@ -908,6 +912,23 @@ func (f *Frame) evalCall(e *spec.Call, st, old *State) TV {
 			specErr("dyn: unknown type %s", tn)
 		}
 		return TV{B.Eq(iv.Fields[0].(*smt.Term), x.typeID(t)), types.Typ[types.Bool]}
+	case "elemindex":
+		// elemindex(p, s): the index i such that p == &s[i], for a pointer p into the array of slice s
+		// (meaningless otherwise: say p == &s[elemindex(p, s)] next to it)
+		if len(e.Args) != 2 {
+			specErr("elemindex(p, s)")
+		}
+		pv := f.eval(e.Args[0], st, old)
+		sv := f.eval(e.Args[1], st, old)
+		p, ok := pv.V.(*Ptr)
+		if !ok || p.Arr == nil {
+			specErr("elemindex: %s is not the address of a slice element", e.Args[0])
+		}
+		_, off, _, _ := sliceParts(sv.V)
+		if p.Off == off && p.Rel != nil {
+			return TV{p.Rel, types.Typ[types.Int]}
+		}
+		return TV{B.BVBin("bvsub", p.Idx, off), types.Typ[types.Int]}
 	case "dynptr":
 		// dynptr(e): the data word of the interface value e (the pointer itself when e holds a pointer)
 		a := f.eval(e.Args[0], st, old)
